@@ -45,7 +45,9 @@ var c18Magnitudes = []string{
 var c18Odd = []string{" 1 ", "0x10", "1_000", "+5", "-0", "1.0", "1e3", "1E3", "1e400", "-1e400", "NaN", "Inf", "-Inf", "+Inf", "infinity", "0b11", "0o17", "١", "1,000", "1.", ".5", "1e", "--1",
 	"010", "0123", "-0755", "00017777777777", "08", "007", "0010.50", "00", "-00",
 	// decimal digits of other scripts (zero on a 16-aligned code point: full-width, Arabic-Indic, Thai; not aligned: Devanagari, Bengali, Tamil, mathematical bold)
-	"１２", "١٢", "๑๒", "१२", "१२३", "১০", "-૨૧", "१.२", "௧e௨", "𝟐𝟑", "1२"}
+	"１２", "١٢", "๑๒", "१२", "१२३", "১০", "-૨૧", "१.२", "௧e௨", "𝟐𝟑", "1२",
+	// whole numbers written with a zero fraction, the integer part ending in zeros
+	"10.0", "1200.0", "-20.0", "100.00", "3000000000.0", "5.00", "0.0", "10.", "-0.0"}
 
 // exact value of an odd string under the reading a user would expect, if any
 func c18OddValue(s string) (*big.Rat, string) {
@@ -74,8 +76,20 @@ func c18OddValue(s string) (*big.Rat, string) {
 	case "-1e400":
 		r, _ := new(big.Rat).SetString("-1e400")
 		return r, ""
-	case "010":
+	case "010", "10.0", "10.":
 		return big.NewRat(10, 1), ""
+	case "1200.0":
+		return big.NewRat(1200, 1), ""
+	case "-20.0":
+		return big.NewRat(-20, 1), ""
+	case "100.00":
+		return big.NewRat(100, 1), ""
+	case "3000000000.0":
+		return big.NewRat(3000000000, 1), ""
+	case "5.00":
+		return big.NewRat(5, 1), ""
+	case "0.0", "-0.0":
+		return big.NewRat(0, 1), ""
 	case "１２", "١٢", "๑๒", "१२", "1२":
 		return big.NewRat(12, 1), ""
 	case "१२३":
